@@ -128,11 +128,11 @@ def run(ctx):
         return ctx.finish("replay of one recorded execution", 2)
 
     # ---- leg 1: the specification satisfies the property (exhaustive, small constants)
-    mc = ctx.write_cfg("MC_LeakTable", MC % ({"addrs": "0, 3, 6, 1", "maxseq": 3, "sizes": "1"} if quick else
+    mc = ctx.write_cfg("MC_LeakTable", MC % ({"addrs": "0, 3, 6", "maxseq": 3, "sizes": "1"} if quick else
                                              {"addrs": "0, 3, 6, 1", "maxseq": 4, "sizes": "1"}))
     r = ctx.model_check("LeakTable", mc, workers=16, timeout=3000, heap="24g")
     ctx.notes["model"] = {"distinct_states": r.distinct, "depth": r.depth,
-                          "constants": "4 addresses (3 in one bucket), P=3, 2 kinds, MaxSeq=%d, MaxStage=1" % (3 if quick else 4)}
+                          "constants": ("3 addresses in one bucket, MaxSeq=3" if quick else "4 addresses (3 in one bucket), MaxSeq=4") + ", P=3, 2 kinds, MaxStage=1"}
 
     # ---- leg 2: behaviours generated by TLC from the specification, executed on the real detector
     total_exec = 0
